@@ -20,7 +20,7 @@ EXPLANATION = (
 ASSUMPTIONS = ["thread_data::restore_state / set_state_tagged are compare-exchange based (decided in C01.R2)",
                "agent_ref::suspend/resume forward to execution_agent (virtual dispatch not followed)"]
 THOROUGH_CONFIGS = [["-UNDEBUG", "-DPIKA_DEBUG"]]
-FLOORS = {"C02.R1": 6, "C02.R2": 6, "C02.R3": 4, "C02.R4": 2, "C02.R5": 4, "C02.R6": 5, "C02.R8": 1}
+FLOORS = {"C02.R1": 6, "C02.R2": 6, "C02.R3": 4, "C02.R4": 2, "C02.R5": 4, "C02.R6": 5, "C02.R8": 1, "C02.R9": 1}
 
 TSS = "pika::threads::detail::thread_schedule_state"
 
@@ -31,6 +31,10 @@ def run(rep, tier):
     rep.rule("C02.R3", "K7/K3: set_thread_state: active => helper task or retry; loop exit only after restore_state; enqueue truth table")
     rep.rule("C02.R4", "K7: set_active_state aborts iff the tag changed; otherwise retries once with retry_on_active")
     rep.rule("C02.R6", "K6 (must-pass-through): every wake-up entry point (execution_agent::do_resume/resume/abort, agent_ref::resume/abort, the join callback pika::resume_thread) reaches its set_thread_state(.., pending, ..) / forwarding call on every path - a wake-up is never filtered by a look at the target's current state (the target may still be 'active' in the window before it finished suspending)")
+    rep.rule("C02.R9", "K4 (a queued task's word is not rewritten): set_thread_state leaves a target that already is in the requested schedule state alone - the state word of a "
+             "*pending* task (it sits in a run queue, a worker is about to claim it with a tagged compare-exchange) is not compare-exchanged again just to change its restart "
+             "state: the new tag makes the worker's claim fail, the worker takes the task for somebody else's and drops the queue entry, and the task stays 'pending' in no queue "
+             "for ever.  Every modification of the word in set_thread_state is therefore reached only with 'new state != observed state' established")
     rep.rule("C02.R8", "K5/K8 (sibling writers of the packed state word): the worker itself rewrites the state_ex part of an *active* task's word (set_state_ex in thread_data_stack*::call, "
              "after it installed 'active'); so the compare-exchange with which the worker publishes the state a task yielded (switch_status::store_state -> restore_state) takes the state_ex "
              "part of its expected word from a fresh load - an expected word recorded at activation fails after any wake-up whose restart state is not 'signaled' (interrupt/abort), the task stays 'active' for ever and its next wake-up is never delivered")
@@ -65,6 +69,20 @@ def run(rep, tier):
         raise AnalysisBroken("set_thread_state: the local holding previous.state() was not found (%s)" % pvals)
     PVAL = pvals[0]
     active_atom = "%s == %s" % tuple(sorted([PVAL, TSS + "::active"]))
+    # R9: the word is modified only when the requested state differs from the observed one
+    same_atom = "%s == %s" % tuple(sorted([NEW, PVAL]))
+    mods = [(b, i, ev) for b, i, ev in fn.all_events() if ev.get("k") == "call" and callee_short(ev) in ("restore_state", "set_state", "set_state_tagged") and
+            ev.get("recv") is not None and "get_thread_id_data" in T(ev["recv"])]
+    if not mods:
+        raise AnalysisBroken("set_thread_state: the modification of the target's state word was not found")
+    for b, i, ev in mods:
+        fb = ff.before.get((b, i)) or frozenset()
+        if (same_atom, False) in fb or any((not t) and re.match(r"^%s == |== %s$" % (re.escape(NEW), re.escape(NEW)), a) and PVAL in a for a, t in fb):
+            rep.ok("C02.R9", fn, "the state word is modified at %s only after 'requested state != observed state' was established" % loc_of(ev))
+        else:
+            rep.bad("C02.R9", fn, loc_of(ev), "requeued-word-rewritten", "set_thread_state modifies the target's state word on a path where the requested schedule state may equal the observed one "
+                    "(e.g. pending -> pending with another restart state): the tag of a task that sits in a run queue changes, the claiming worker's compare-exchange fails, the worker "
+                    "drops the queue entry ('no execution') and the task stays pending in no queue - it never runs again although its wake-up was issued")
     # (a) active case
     rets = [(b, i, ev) for b, i, ev in fn.all_events() if ev.get("k") == "return" and (active_atom, True) in (ff.before.get((b, i)) or ())]
     cw = lambda e: e.get("k") == "call" and callee_short(e) == "create_work"
